@@ -594,8 +594,9 @@ def builder_sequence(body, local):
         if not a0['place']['ty'].startswith('&mut'):
             continue
         items.append(cs)
-    # order by dominance
-    items.sort(key=lambda c: len(body.dominators().get(c.bb, ())))
+    # order by control flow (reverse post-order; body.calls is already in that order)
+    pos = {c.bb: i for i, c in enumerate(body.calls)}
+    items.sort(key=lambda c: pos.get(c.bb, 1 << 30))
     for x, y in zip(items, items[1:]):
         if not body.dominates(x.bb, y.bb) and body.loop_depth(x.bb) == body.loop_depth(y.bb) == 0:
             raise Unrecognised('builder', 'mutations of _%d in %s are not totally ordered' % (local, body.path))
@@ -708,6 +709,17 @@ def sequence_elements(prog, body, operand):
                 if len(doms) == 1:
                     return doms[0], seq[0][2][0]
     return None
+
+
+def ctor_inlined(prog, e, names=('EvaluatedScript::new',)):
+    """expression with the given plain constructors (`fn new(a, b) -> Self { Self { a, b } }`) replaced by the
+    aggregates they build, so `EvaluatedScript::new(addr, pat)` and `EvaluatedScript { address: addr, pattern: pat }`
+    compare equal"""
+    paths = set()
+    for n in names:
+        for b in prog.find(n):
+            paths.add(b.path)
+    return prog.inline_only(e, paths) if paths else e
 
 
 def rpo(body):
